@@ -605,7 +605,10 @@ def f4(repo: Repo) -> RuleResult:
             res.bad(Finding("F4", fi.rel, fi.node.lineno, fi.qual, "", "the -F list is read but selects nothing", tag=f"{fi.qual}:no-effect"))
             continue
         if elem is None or not elem.endswith("d.name"):
-            res.unsure(f"F4: {fi.qual}: membership is tested for `{elem}`, expected the dispatched message's name")
+            if elem is not None and ".format_" in elem and "name(" in elem:
+                res.bad(Finding("F4", fi.rel, fi.node.lineno, fi.qual, elem, f"membership in the -F list is tested for `{elem}` (the name as generated, with prefix / nesting / case conversion), not for the message's schema name: -F Foo selects nothing, or another message, once names are transformed", witness="c.name_prefix = \"My\" with -F Foo: no encoder is generated for Foo", tag=f"{fi.qual}:element"))
+            else:
+                res.unsure(f"F4: {fi.qual}: membership is tested for `{elem}`, expected the dispatched message's name")
     # data-structure dispatchers do not read it; Go keeps struct/size before the filter
     for relsfx, cn in (("impls/c/renderer_h.py", "BlockDataStructuresList"),):
         c = m.mod(relsfx).classes.get(cn)
